@@ -23,4 +23,88 @@ impl DeriveEntry {
 //@     | (result is Err || self.dump) ==> is_error_stream(&r)
 //@ end
 }
+
+pub mod token {
+    use vstd::prelude::*;
+    verus! {
+    #[verifier::external_body]
+    pub struct Paren { _p: u8 }
+    }
+}
+verus! {
+#[verifier::external_body]
+pub struct DotDot { _p: u8 }
+pub struct NameArgs<T> { pub name_span: Span, pub args: T }
+impl Ident {
+    #[verifier::external_body]
+    pub fn span(&self) -> Span { unimplemented!() }
+}
+pub uninterp spec fn kind_of(i: &Ident) -> DeriveItemKind;
+pub uninterp spec fn bounds_of(b: &Option<NameArgs<Vec<Bound>>>) -> Bounds;
+pub uninterp spec fn empty_bounds() -> Bounds;
+// one derive entry per listed trait, in list order; dump of an entry = shared dump of its list || its own dump
+pub open spec fn item_dump(i: &DeriveItem) -> bool { i.args matches DeriveItemArgsOption::Some { _paren, args } && args.dump }
+pub open spec fn item_bounds(i: &DeriveItem) -> Bounds { match i.args { DeriveItemArgsOption::Some { _paren, args } => bounds_of(&args.bound), DeriveItemArgsOption::None => empty_bounds() } }
+pub open spec fn entry_of(a: &Args, i: &DeriveItem, e: &DeriveEntry) -> bool {
+    e.kind == kind_of(&i.trait_ident) && e.dump == (a.dump || item_dump(i)) && e.bounds_this == item_bounds(i) && e.bounds_common == bounds_of(&a.bound)
+}
+pub open spec fn flat_len(al: Seq<Args>, n: int) -> int decreases n { if n <= 0 { 0 } else { flat_len(al, n - 1) + al[n - 1].items@.len() } }
+// result k is the entry of (list a, item j) where k = flat_len(al, a) + j
+pub open spec fn well_formed(al: Seq<Args>, n: int, m: int, v: Seq<DeriveEntry>) -> bool {
+    v.len() == flat_len(al, n) + m
+    && (forall|a: int, j: int| 0 <= a < n && 0 <= j < al[a].items@.len() ==> entry_of(&al[a], &al[a].items@[j], #[trigger] &v[flat_len(al, a) + j]))
+    && (forall|j: int| 0 <= j < m ==> entry_of(&al[n], &al[n].items@[j], #[trigger] &v[flat_len(al, n) + j]))
+}
+}
+verus! {
+pub proof fn lemma_flat_step(al: Seq<Args>, a: int, n: int)
+    requires 0 <= a < n,
+    ensures flat_len(al, a) + al[a].items@.len() <= flat_len(al, n), flat_len(al, a) >= 0,
+    decreases n
+{
+    lemma_flat_nonneg(al, a);
+    if a < n - 1 { lemma_flat_step(al, a, n - 1); lemma_flat_nonneg(al, n - 1); }
+}
+pub proof fn lemma_flat_nonneg(al: Seq<Args>, n: int) ensures flat_len(al, n) >= 0 decreases n { if n > 0 { lemma_flat_nonneg(al, n - 1); } }
+pub open spec fn flat_mono(al: Seq<Args>, n: int) -> bool {
+    forall|a: int| 0 <= a < n ==> #[trigger] flat_len(al, a) + al[a].items@.len() <= flat_len(al, n) && flat_len(al, a) >= 0
+}
+pub proof fn lemma_flat_mono(al: Seq<Args>, n: int) ensures flat_mono(al, n), flat_len(al, n) >= 0 {
+    lemma_flat_nonneg(al, n);
+    assert forall|a: int| 0 <= a < n implies #[trigger] flat_len(al, a) + al[a].items@.len() <= flat_len(al, n) && flat_len(al, a) >= 0 by { lemma_flat_step(al, a, n); }
+}
+}
+macro_rules! Token { ($($t:tt)*) => { DotDot }; }
+//@ enum bound.rs Bound noderive
+//@ struct item_type.rs Args
+//@ struct item_type.rs DeriveItem
+//@ struct item_type.rs DeriveItemArgs
+//@ enum item_type.rs DeriveItemArgsOption
+#[verus_verify]
+impl Bounds {
+    #[verifier::external_body]
+    #[verus_spec(r => ensures r == empty_bounds())]
+    pub fn new() -> Self { unimplemented!() }
+    // proved in unit `bounds`; here only its being a function of the argument matters
+    #[verifier::external_body]
+    #[verus_spec(r => ensures r == bounds_of(bound))]
+    pub fn from(bound: &Option<NameArgs<Vec<Bound>>>) -> Self { unimplemented!() }
+}
+#[verus_verify]
+impl DeriveItemKind {
+    #[verifier::external_body]
+    #[verus_spec(r => ensures r matches Ok(k) ==> k == kind_of(s))]
+    fn from_ident(s: &Ident) -> Result<Self> { unimplemented!() }
+}
+#[verus_verify]
+impl DeriveEntry {
+// C15 / C19: entries are the flattening of the argument lists in order; `dump` is per entry (shared flag of its own list or its own flag)
+//@ fn item_type.rs DeriveEntry::from_args_list
+//@   spec r => ensures r matches Ok(v) ==> well_formed(args_list@, args_list@.len() as int, 0, v@)
+//@   rewrite R10
+//@   before for a in args_list ## #[verus_spec(oi => invariant oi.seq().len() == args_list@.len(), forall|i: int| 0 <= i < args_list@.len() ==> *oi.seq()[i] == args_list@[i], 0 <= oi.index@ <= args_list@.len(), well_formed(args_list@, oi.index@, 0, results@))]
+//@   before let (dump, bounds_this) ## proof! { lemma_flat_mono(args_list@, oi.index@ as int); }
+//@   before for item in &a.items ## #[verus_spec(ii => invariant ii.seq().len() == a.items@.len(), forall|i: int| 0 <= i < a.items@.len() ==> *ii.seq()[i] == a.items@[i], 0 <= ii.index@ <= a.items@.len(), 0 <= oi.index@ < args_list@.len(), *a == args_list@[oi.index@ as int], well_formed(args_list@, oi.index@, ii.index@, results@))]
+//@ end
+}
 fn main() {}
